@@ -47,6 +47,7 @@ class Obl:
     twin: bool = True             # reachability twin (xh)
     pre: str | None = None        # extra precondition in every tier (used to split one harness into parallel obligations)
     quick_pre: str | None = None  # extra precondition (tighter bounds) applied in the quick tier only
+    thorough_pre: str | None = None  # extra precondition applied in the thorough tier (a larger but still exhaustible bound)
     timeout_thorough: int | None = None
     replay: str | None = None     # "module:func" real-API replay taking the cex
     classify: str | None = None   # "module:func" cex -> finding key suffix
@@ -243,7 +244,7 @@ def write_replay(prop: str, obl: Obl, body: str, harness_path: Path | None):
 
 
 def run_obligation(prop: str, obl: Obl, workroot: Path, tier: str = "quick") -> Verdict:
-    tpre = ([obl.pre] if obl.pre else []) + ([obl.quick_pre] if (tier == "quick" and obl.quick_pre) else [])
+    tpre = ([obl.pre] if obl.pre else []) + ([obl.quick_pre] if (tier == "quick" and obl.quick_pre) else []) + ([obl.thorough_pre] if (tier == "thorough" and obl.thorough_pre) else [])
     if tier == "thorough" and obl.timeout_thorough:
         obl = replace(obl, timeout=obl.timeout_thorough)
     wd = Path(tempfile.mkdtemp(prefix=re.sub(r"\W", "_", obl.id) + "_", dir=workroot))
@@ -404,7 +405,7 @@ def write_evidence(prop, tier, seed, verdicts, meta, wall, n_viol):
     samples = []
     for v in verdicts[:400]:
         samples.append({"obligation": v.obl.id, "kind": v.obl.kind, "harness": f"{v.obl.module}.{v.obl.func}",
-                        "encodes": v.obl.encodes, "bounds": v.obl.bounds + (f" [quick tier additionally: {v.obl.quick_pre}]" if tier == "quick" and v.obl.quick_pre else ""), "claim": v.obl.desc, "verdict": v.status,
+                        "encodes": v.obl.encodes, "bounds": v.obl.bounds + (f" [quick tier additionally: {v.obl.quick_pre}]" if tier == "quick" and v.obl.quick_pre else "") + (f" [thorough tier additionally: {v.obl.thorough_pre}]" if tier == "thorough" and v.obl.thorough_pre else ""), "claim": v.obl.desc, "verdict": v.status,
                         "solver_s": round(v.solver_s, 2), "queries": v.queries, "reachability_twin_violated": v.twin_ok,
                         **({"cex": v.cex, "reproduced": v.reproduced, "known": v.known, "key": v.finding_key} if v.cex else {}),
                         **({"detail": v.detail[-400:]} if v.status not in ("holds",) else {}),
